@@ -225,7 +225,7 @@ class TGen:
         if c < 0.39 and isinstance(ty, str) and ty in (INT, FLOAT, BOOL):
             src = r.choice([t for t in (INT, FLOAT, BOOL) if t != ty])
             f("cast")
-            return N("cast", ty, [self.grp(self.expr(src, env, d)), f" as {ty}"])
+            return self.grp(N("cast", ty, [self.grp(self.expr(src, env, d)), f" as {ty}"]))
         if ty == INT:
             if c < 0.65:
                 op = r.choice(["+", "-", "*", "/", "%", "**", "<<", ">>", "|", "&", "^"])
@@ -656,11 +656,11 @@ def tree_mutations(rng, tree):
             parts[kids[2][0]] = raw("{ " + wrong_lit(rng, n.ty) + " }")
             out.append(("branchMismatch", path, N("raw", None, parts)))
             out.append(("branchMismatch", path, N("raw", None, parts[:kids[2][0] - 1])))      # else branch removed
-        if n.kind == "match" and n.ty in WRONG:
+        if n.kind == "match" and n.ty in WRONG and len(kids) > 2:
             parts = list(n.parts)
             parts[kids[-1][0]] = raw(wrong_lit(rng, n.ty))
             out.append(("branchMismatch", path, N("raw", None, parts)))
-            if len(kids) > 2:
+            if True:
                 # drop the default arm of a value-producing match
                 cut = kids[-1][0] - 1
                 out.append(("missingDefault", path, N("raw", None, parts[:cut] + [" }"])))
@@ -789,7 +789,7 @@ def context_mutations(rng, tree):
             rule = "breakOutsideLoop" if kw == "break" else "continueOutsideLoop"
             if path in lam_in_loop:
                 rule += ":closure-in-loop"
-            out.append((rule, path, N("raw", None, [n.parts[0], f"if false {{ {kw}; }} ", *n.parts[1:]])))
+            out.append((rule, path, N("raw", None, [n.parts[0], f"if false {{ {kw}; }}; ", *n.parts[1:]])))
     for path, ret in fn_rets.items():
         if ret is None:
             continue
@@ -802,7 +802,7 @@ def context_mutations(rng, tree):
             idx = kids[-1][0]           # before the trailing expression
         if n.ty == NEVER:
             continue
-        out.append(("returnMismatch:block-end", path, N("raw", None, list(n.parts[:idx]) + [f"if false {{ {bad} }} "] + list(n.parts[idx:]))))
+        out.append(("returnMismatch:block-end", path, N("raw", None, list(n.parts[:idx]) + [f"if false {{ {bad} }}; "] + list(n.parts[idx:]))))
     return out
 
 
@@ -849,7 +849,7 @@ TEXT_INSERTS = [
     ("argMismatch", 'println("abc".repeat("x"));'),
     ("arity", 'println("abc".repeat(1, 2));'),
     ("unknownMember", "println((1).zz_nope());"),
-    ("conditionNotBool", "if 1 { }"),
+    ("conditionNotBool", "if 1 { };"),
     ("conditionNotBool", 'while "s" { }'),
     ("branchMismatch", 'println(if true { 1 } else { "s" });'),
     ("notIterable", "for zz_i in 5 { }"),
@@ -874,7 +874,7 @@ def mutants_text(rng, src, k=6):
     if heads:
         pos = rng.choice(heads)
         kw = rng.choice(["break", "continue"])
-        out.append((src[:pos] + f"    if false {{ {kw}; }}\n" + src[pos:], kw + "OutsideLoop", f"fn-head@{pos}"))
+        out.append((src[:pos] + f"    if false {{ {kw}; }};\n" + src[pos:], kw + "OutsideLoop", f"fn-head@{pos}"))
     # rename one use of a let-bound variable
     uses = [m for m in re.finditer(r"\b(v\d+|p\d+)\b", src)]
     decl = set(m.start(1) for m in re.finditer(r"\blet (v\d+)", src)) | set(m.start(1) for m in re.finditer(r"[(,] ?(p\d+):", src))
